@@ -157,6 +157,7 @@ class FnInfo:
     def __init__(self, cname, node, qname):
         self.cname = cname; self.node = node; self.qname = qname
         self.callees = set(); self.loops = []; self.rules = {}; self.locals = set()
+        self.local_decls = {}     # plain (non-reference, non-array, non-static) locals in declaration order: name -> C type
         self.text = ''; self.proto = ''
         self.line = None; self.file = None
 
@@ -1303,6 +1304,7 @@ class Lowerer:
                     out += ind + '%s = %s;\n' % (name, self.e(i0))
             return self.with_temps_decl(mark, ind, out)
         if not init:
+            if self.cur is not None: self.cur.local_decls[name] = self.value_decl(t)
             if self.is_class_type(t):
                 cname = '%s_ctor' % t.name; self.note_extern(cname, v)
                 return ind + '%s = %s();\n' % (self.value_decl(t, name), cname)
@@ -1315,6 +1317,7 @@ class Lowerer:
             self.rule('local lambda variable -> direct calls of the lowered lambda function')
             return ind + '/* lambda %s = %s */\n' % (name, lname)
         text = ind + '%s = %s;\n' % (self.value_decl(t, name), self.e(init[0]))
+        if self.cur is not None and not static: self.cur.local_decls[name] = self.value_decl(t)
         text = self.raii(v, t, name, ind, text)
         return self.with_temps_decl(mark, ind, text)
 
@@ -1452,10 +1455,50 @@ class Lowerer:
         mark = len(self.temps)
         c = self.e(cond)
         self.loop_depth.append(len(self.raii_stack))
+        pre_locals = dict(self.cur.local_decls)
         b = self.blockify(body, ind)
         self.loop_depth.pop()
+        if (self.cur.cname, slot.rsplit('_', 1)[1]) in getattr(self, 'loopbody_requests', set()):
+            if len(self.temps) != mark: raise Unsupported('loop body extraction: the loop guard needs temporaries')
+            self.extract_loop_body(n, body, slot.rsplit('_', 1)[1], c, b, pre_locals)
         out = '%swhile (%s)\n%s%s\n%s' % (ind, c, ind, slot, b)
         return self.with_temps(mark, ind, out)
+
+    def extract_loop_body(self, n, body, k, cond_text, body_text, pre_locals):
+        """//@ loopbody <fn> <k>: the body of the k-th loop (a while loop) of fn, VERBATIM as lowered, as a function of its own
+        <fn>_loop<k>_body(<fn's parameters>, <pointer to every plain local declared before the loop>), so that a STEP contract
+        (requires: loop guard and invariant; ensures: what one iteration does, with __CPROVER_old) can be enforced on it.
+        'continue' (bound to this loop) becomes 'return'.  Refused when the body contains a nested loop, 'break', 'return' or a switch
+        (their control flow would not survive the extraction).  The loop guard is emitted as <fn>_loop<k>_guard(...) ."""
+        def bad(x):
+            kd = x.get('kind')
+            if kd in ('ForStmt', 'WhileStmt', 'DoStmt', 'CXXForRangeStmt', 'BreakStmt', 'ReturnStmt', 'SwitchStmt', 'GotoStmt'): return kd
+            for ch in x.get('inner', []):
+                if isinstance(ch, dict) and ch.get('kind') != 'LambdaExpr':
+                    r = bad(ch)
+                    if r: return r
+            return None
+        why = bad(body)
+        if why: raise Unsupported('loop body extraction: the body of loop %s of %s contains %s' % (k, self.cur.cname, why))
+        parent = self.cur
+        cname = '%s_loop%s_body' % (parent.cname, k)
+        info = FnInfo(cname, parent.node, parent.qname + '/loop%s/body' % k)
+        info.line = src_line(n); info.file = parent.file
+        info.callees = parent.callees        # shared: callees of the whole function (on-demand lowering covers the body's)
+        info.is_loop_body = True
+        extra = ['%s *%s_p' % (t, nm) for nm, t in pre_locals.items()]
+        params = list(self.cur_params) + extra
+        defs = ''.join('#define %s (*%s_p)\n' % (nm, nm) for nm in pre_locals)
+        undefs = ''.join('#undef %s\n' % nm for nm in pre_locals)
+        txt = re.sub(r'\bcontinue;', 'return;', body_text)
+        info.proto = 'void %s(%s)' % (cname, ', '.join(params) or 'void')
+        info.text = defs + info.proto + '\n' + txt + undefs
+        ginfo = FnInfo('%s_loop%s_guard' % (parent.cname, k), parent.node, parent.qname + '/loop%s/guard' % k)
+        ginfo.line = src_line(n); ginfo.file = parent.file; ginfo.callees = parent.callees; ginfo.is_loop_body = True
+        ginfo.proto = 'BOOL %s_loop%s_guard(%s)' % (parent.cname, k, ', '.join(params) or 'void')
+        ginfo.text = defs + ginfo.proto + '\n{\n    return (%s) != 0;\n}\n' % cond_text + undefs
+        self.fns[cname] = info; self.fns[ginfo.cname] = ginfo
+        self.rule('loop body extracted as a function for a step contract (//@ loopbody)')
     def s_DoStmt(self, n, ind):
         body, cond = n['inner']
         slot = self.loop_slot('do', n)
@@ -1576,6 +1619,7 @@ class Lowerer:
         for p in f.get('inner', []):
             if p.get('kind') == 'ParmVarDecl':
                 params.append(self.param_decl(p))
+        self.cur_params = list(params)
         rts = f['type']['qualType'].replace('(anonymous namespace)::', '').split('(')[0].strip()
         if kind in ('CXXConstructorDecl', 'CXXDestructorDecl'): rts = 'void'
         rt = CType(rts, None)
